@@ -7,6 +7,18 @@
 (*   kind  = "validate" : x12n_document with all sinks (997/999, HTML, XML)     *)
 (*           "context"  : X12ContextReader.iter_segments (flat pass + tree pass)*)
 (*           "convert"  : xmlx12_simple.convert of the document's XML form      *)
+(*           "loops"    : X12ContextReader.iter_segments(loop id), for the loop *)
+(*                        ids of the document; of every yielded tree / segment  *)
+(*                        the full iterate_loop_segments() event stream         *)
+(*                        (loop_start, loop_end, seg) and the text of every     *)
+(*                        segment are observed                                  *)
+(*           "loopcopy" : the same iteration, every yielded node is duplicated  *)
+(*                        with its public copy() first (ordinary editing use);  *)
+(*                        the event streams of the copy and of the original are *)
+(*                        observed                                              *)
+(*         the two loop kinds are offered for the documents LoopDocs (an 837    *)
+(*         and an 835) and always take a new parameter object (reuse = "none"); *)
+(*         the maps they load become long-lived objects of the session          *)
 (*   reuse = "none"     : a new parameter object, the library loads its maps    *)
 (*           "params"   : the long-lived parameter object of the session        *)
 (*           "maps"     : long-lived parameter object AND long-lived map objects*)
@@ -27,16 +39,19 @@
 (* configuration) are the same after the call as before:  globals' = globals.   *)
 EXTENDS Naturals, Sequences, FiniteSets, TLC
 
-Kinds == {"validate", "context", "convert"}
+Kinds == {"validate", "context", "convert", "loops", "loopcopy"}
+LoopKinds == {"loops", "loopcopy"}
+LoopDocs == {"p837", "r835"}
 ReuseModes == {"none", "params", "maps"}
 Fields == <<"verdict", "errors", "xml", "html", "ack", "out">>
 
 UsesParams(k) == k # "convert"
 (* there is something to reuse only after an earlier call that took parameters *)
-CanReuse(l, k) == UsesParams(k) /\ \E i \in 1..Len(l) : UsesParams(l[i].kind)
+CanReuse(l, k) == UsesParams(k) /\ k \notin LoopKinds /\ \E i \in 1..Len(l) : UsesParams(l[i].kind)
 LegalCall(l, c) == /\ c.kind \in Kinds
                    /\ c.reuse \in ReuseModes
                    /\ (c.reuse # "none" => CanReuse(l, c.kind))
+                   /\ (c.kind \in LoopKinds => c.doc \in LoopDocs)
 
 (* pruning of long histories: symmetric variants are dropped, every ordered pair *)
 (* of calls and the repetition patterns a-a-x, a-b-a, a-b-b are kept            *)
@@ -47,10 +62,10 @@ Kept(l, prune) == (prune /\ Len(l) >= 3) => (Cardinality(DocsOf(l)) <= 2 /\ Unif
 
 (* seeded sample of long histories: an arithmetic hash of the call sequence,     *)
 (* defined here so that the sample is part of the specification TLC enumerates  *)
-KindSeq == <<"validate", "context", "convert">>
+KindSeq == <<"validate", "context", "convert", "loops", "loopcopy">>
 ReuseSeq == <<"none", "params", "maps">>
 IndexIn(seq, x) == CHOOSE n \in 1..Len(seq) : seq[n] = x
-CallCode(docSeq, c) == IndexIn(docSeq, c.doc) * 9 + IndexIn(KindSeq, c.kind) * 3 + IndexIn(ReuseSeq, c.reuse)
+CallCode(docSeq, c) == IndexIn(docSeq, c.doc) * 15 + IndexIn(KindSeq, c.kind) * 3 + IndexIn(ReuseSeq, c.reuse)
 RECURSIVE HashOf(_, _, _)
 HashOf(docSeq, l, salt) ==
     IF Len(l) = 0 THEN salt % 1000003
@@ -58,8 +73,13 @@ HashOf(docSeq, l, salt) ==
 Sampled(docSeq, l, mod, salt) == mod <= 1 \/ (HashOf(docSeq, l, salt) % mod = 0)
 
 (* the clauses of the property that an observed call violates, given the        *)
-(* observation of the fresh process and the globals cell before the call        *)
+(* observation of the fresh process and the globals cell before the call.       *)
+(* A call that did not return within its CPU / memory budget has no result: its *)
+(* recorded verdict is NoTermination and that is the one clause reported (the   *)
+(* process executes no further call after it).                                  *)
+NoTermination == "no_termination"
 ObsMismatch(obs, fresh) == {Fields[j] : j \in {n \in 1..Len(Fields) : obs[Fields[n]] # fresh[Fields[n]]}}
 CallMismatch(obs, fresh, gBefore, gAfter) ==
-    ObsMismatch(obs, fresh) \cup (IF gAfter # gBefore THEN {"globals"} ELSE {})
+    IF obs.verdict = NoTermination THEN {NoTermination}
+    ELSE ObsMismatch(obs, fresh) \cup (IF gAfter # gBefore THEN {"globals"} ELSE {})
 =============================================================================
